@@ -277,6 +277,23 @@ def r10_4(ctx, handlers):
                     probs.append("starts shifting at `%s`, not at the partition point of the changed source index" % fmt(skip, 4))
             elif skip is not None and not is_const_int(skip, 0):
                 probs.append("skips the first `%s` kept indices" % fmt(skip, 3))
+            # order of the two effects: the entry for the new item is recorded after the shift (or outside its range) - recorded
+            # before it, the new entry is shifted along with the old ones and remembers a source index one too high
+            for iblk, it in b.calls(r"VecDeque::<usize.*>::(push_front|insert)$"):
+                if loc[0] in b.reachable_from(iblk) and loc[0] != iblk:
+                    starts_after = skip is not None and has_arith(skip)
+                    if v == "PushFront" or not starts_after:
+                        probs.append("records the new item's source index (bb%d) *before* shifting the kept indices (bb%d): the new entry is shifted too and ends up one too high" % (iblk, loc[0]))
+                        break
+            # a path that returns without entering the shift loop is only right if nothing needs shifting: it must have
+            # established that no kept index lies at or behind the changed source position (strictly: the item *at* that
+            # position moves too)
+            from .c11 import loop_entry
+            site = loop_entry(b, loc[0])
+            if v in ("Insert", "PushFront"):
+                verdict_bp = bypass_guard(ctx, h, b, site, v)
+                if verdict_bp:
+                    probs.append(verdict_bp)
             ctx.verdict(not probs, "R10.4", h, "index-shift:%s" % v, b.line_at(loc), "%s: kept indices %s are shifted by %s1" % (v, "from the partition point on" if from_pp else "(all)", sign),
                         "`%s`: %s" % (h.path, "; ".join(probs)))
     ctx.floor("R10.4", n, 11)
@@ -402,3 +419,38 @@ def r10_8(ctx):
                     "the source-index counter `%s` is incremented on every path of the per-item closure" % incs[0][1],
                     "the per-item closure `%s` can return without incrementing the source-index counter `%s` (e.g. an early return for rejected items): every kept item after a rejected one is remembered at too small a source index" % (c.path, incs[0][1]))
     ctx.floor("R10.8", n, 3)
+
+
+def bypass_guard(ctx, h, b, site, v):
+    """returns a problem string if some path bypasses the shift loop without having established `last kept index < index`."""
+    from .common import paths_between
+    rets = [r for r in b.return_blocks() if r in b.reachable_from(0, avoid_blocks=[site])]
+    for r in rets:
+        for path in paths_between(b, 0, r, limit=300):
+            if site in path:
+                continue
+            facts = []
+            feasible = True
+            for i in range(len(path) - 1):
+                for fct in conds.path_edge_facts(b, path, i):
+                    if fct[0] == "infeasible":
+                        feasible = False
+                    facts.append(fct)
+            if not feasible:
+                continue
+            is_last = lambda e: contains(e, lambda y: y[0] == "call" and isinstance(y[1], str) and re.search(r"VecDeque::<.*>::(back|back_mut)$|::last$", y[1]))
+            is_idx = lambda e: contains(e, lambda y: y[0] == "param" and y[1] >= 2 and (y[2] or "") in ("index", "original_idx", "idx")) or contains(e, lambda y: y[0] == "param" and y[1] == 2)
+            empty = any(f[0] == "variant" and f[2] == frozenset(["None"]) and is_last(f[1]) for f in facts) or \
+                any(f[0] == "truth" and f[2] is True and f[1][0] == "call" and ecall_matches(f[1], r"::is_empty$") for f in facts)
+            if empty:
+                continue
+            if conds.cmp_holds(facts, "Lt", is_last, is_idx):
+                continue
+            if conds.cmp_holds(facts, "Le", is_last, is_idx):
+                return "a path returns without shifting (bb%d bypassed) after testing only `last kept index <= index`: when the last kept item sits exactly at the insertion index it moves one position up but keeps its old recorded index" % site
+            if v == "PushFront":
+                return "a path returns without shifting the kept indices (bb%d bypassed): every kept item moves one position up on a PushFront" % site
+            # unknown guard for Insert: not decided
+            ctx.undecided("R10.4", h, "index-shift-bypass:%s" % v, b.line_at((path[-1], 0)), "a path bypasses the shift loop under a guard that is not recognised")
+            return None
+    return None
